@@ -118,3 +118,62 @@ Definition decode_trk (strict : bool) (o : trk_offs) (f : list Z) : option (list
        | Ok (info, sl) =>
          if strict && ((zlen f <? trk_header_size) || (i_count info =? 0)) then None else Some sl
        end.
+
+(* ---- repeated reads from ONE lazily loaded tractogram object (load(lazy_load=True), then several
+   passes over .streamlines, each of which may raise).  What survives from one pass to the next:
+   the file position (restored by the `finally` of _read since c36353e5, so every pass starts
+   from _offset_data again) and the header dict, in which TrkFile._read stores the number of
+   streamlines read only when a pass runs to its end (`header[nb_streamlines] = count` after the
+   loop; nothing is stored when the pass raises).  None = the pass raised. *)
+Definition trk_open (o : trk_offs) (f : list Z) : res (trk_info * list Z) :=
+  let got := takez trk_header_size f in
+  let hb := got ++ zeros (trk_header_size - zlen got) in
+  match trk_parse_header o hb with
+  | Err e => Err e
+  | Ok info =>
+    if (i_nscal info <? 0) || (i_nprop info <? 0) then Err ENegPts
+    else Ok (info, dropz (zlen got) f)
+  end.
+
+Definition trk_nb (count : Z) : option Z := if count =? 0 then None else Some count.
+
+Fixpoint trk_retry_passes (k : nat) (info : trk_info) (count : Z) (data : list Z)
+  : list (option (list trk_stream)) :=
+  match k with
+  | O => []
+  | S k' =>
+    match trk_loop (S (length data)) (i_be info) (3 + i_nscal info) (i_nprop info) (trk_nb count) 0 data [] with
+    | Ok sl => Some sl :: trk_retry_passes k' info (zlen sl) data
+    | Err _ => None :: trk_retry_passes k' info count data
+    end
+  end.
+
+(* None: load(lazy_load=True) itself raises (header, or the first-item pass of from_data_func) *)
+Definition trk_lazy_retry (o : trk_offs) (k : nat) (f : list Z) : option (list (option (list trk_stream))) :=
+  if zlen f =? 0 then None else
+  match trk_open o f with
+  | Err _ => None
+  | Ok (info, data) =>
+    match trk_take_loop (S (S (length data))) (i_be info) (3 + i_nscal info) (i_nprop info)
+            (trk_nb (i_count info)) 0 1 data [] with
+    | Err _ => None
+    | Ok first =>
+      (* a first-item pass that ends without an item ran to its end: it stores count = 0 *)
+      let count := match first with [] => 0 | _ => i_count info end in
+      Some (trk_retry_passes k info count data)
+    end
+  end.
+
+(* TCK: _read keeps nothing between passes *)
+Definition tck_lazy_retry (b : Z) (k : nat) (f : list Z) : option (list (option (list (list triple)))) :=
+  if zlen f =? 0 then None else
+  match tck_parse_header f with
+  | Err _ => None
+  | Ok (be, off) =>
+    if off <? 0 then None else
+    let data := dropz off f in
+    match tck_take_loop (S (length data)) be (tck_bufsize b) 1 data [] [] with
+    | Err _ => None
+    | Ok _ => Some (repeat (res_opt (tck_read_data be (tck_bufsize b) data)) k)
+    end
+  end.
